@@ -24,7 +24,7 @@ Inductive dop :=
 | DPopItem
 | DSetDefault (k : key) (v : item)
 | DUpdate (u : dupd) (kw : pydict)
-| DIor (m : pydict).          (* d |= m : not wrapped *)
+| DIor (m : pydict).          (* d |= m *)
 
 (* ---------- builtin dict ---------- *)
 Fixpoint d_get (k : key) (d : pydict) : option item :=
@@ -157,7 +157,7 @@ Definition sa_dict_op (op : dop) : DM retv :=
   | DPopItem => kv <- sa_dpopitem ;; ret (RPair (fst kv) (snd kv))
   | DSetDefault k v => it <- sa_dsetdefault k v ;; ret (RItem it)
   | DUpdate u kw => sa_dupdate u kw ;;; ret RNone
-  | DIor m => lift (fun d => Ok (tt, d_update d m)) ;;; ret RSelf      (* builtin, no events *)
+  | DIor m => sa_dupdate (UMap m) [] ;;; ret RSelf            (* __ior__: self.update(other); return self *)
   end.
 
 Definition sa_dict_run1 (d : pydict) (op : dop) : res retv * pydict * list ev :=
@@ -180,13 +180,3 @@ Fixpoint py_dict_run (ops : list dop) (d : pydict) : list (res retv) * pydict :=
 
 (* well-formed dict: unique keys *)
 Definition d_wf (d : pydict) : Prop := NoDup (map fst d).
-
-(* event accounting fails for d |= m whenever it changes the multiset of values *)
-Definition dict_acct_guard (d : pydict) (op : dop) : bool :=
-  match op with
-  | DIor m => forallb (fun kv => match d_get (fst kv) d with
-                                 | Some v => Z.eqb v (snd kv)
-                                 | None => false
-                                 end) m
-  | _ => true
-  end.
